@@ -488,7 +488,7 @@ fn assemble(tbs: &[u8], sig_alg: &[u8], sig: &[u8]) -> Vec<u8> {
     der_seq(&[tbs.to_vec(), sig_alg.to_vec(), der_tlv(0x03, &[&[0u8][..], sig].concat())])
 }
 
-const VARIANTS: [(&str, bool); 27] = [
+const VARIANTS: [(&str, bool); 29] = [
     // (name, the statement allows acceptance)
     ("control-critical-ext", true),
     ("libp2p-ext-non-critical", true),
@@ -517,6 +517,10 @@ const VARIANTS: [(&str, bool); 27] = [
     ("cert-key-p384", true),
     ("cert-key-ed25519", true),
     ("cert-key-rsa", true),
+    // certificate keys whose self-signature cannot be checked at all (no verifier for the scheme): a garbage
+    // signature must not be waved through just because it cannot be verified
+    ("cert-key-p521-garbage-self-signature", false),
+    ("cert-key-ed448-garbage-self-signature", false),
 ];
 
 fn variant_case(check: &Check, rng: &mut Rng, vi: usize, allow_rsa_host: bool) {
@@ -532,7 +536,32 @@ fn variant_case(check: &Check, rng: &mut Rng, vi: usize, allow_rsa_host: bool) {
         _ => 0,
     };
     let ck = CertKey::generate(key_kind, rng);
-    let spki = ck.spki();
+    const OID_P521: &[u8] = &[0x06, 0x05, 0x2B, 0x81, 0x04, 0x00, 0x23];
+    const OID_ECDSA_SHA512: &[u8] = &[0x06, 0x08, 0x2A, 0x86, 0x48, 0xCE, 0x3D, 0x04, 0x03, 0x04];
+    const OID_ED448: &[u8] = &[0x06, 0x03, 0x2B, 0x65, 0x71];
+    let bit_string_of = |bytes: &[u8]| -> Vec<u8> {
+        let mut body = vec![0u8];
+        body.extend_from_slice(bytes);
+        let mut v = vec![0x03];
+        if body.len() < 128 {
+            v.push(body.len() as u8);
+        } else {
+            v.push(0x81);
+            v.push(body.len() as u8);
+        }
+        v.extend(body);
+        v
+    };
+    let unverifiable: Option<(Vec<u8>, Vec<u8>, usize)> = match vname {
+        "cert-key-p521-garbage-self-signature" => {
+            let mut point = vec![0x04u8];
+            point.extend(rng.bytes(132));
+            Some((der_seq(&[der_seq(&[OID_EC_PUBLIC_KEY.to_vec(), OID_P521.to_vec()]), bit_string_of(&point)]), der_seq(&[OID_ECDSA_SHA512.to_vec()]), 139))
+        }
+        "cert-key-ed448-garbage-self-signature" => Some((der_seq(&[der_seq(&[OID_ED448.to_vec()]), bit_string_of(&rng.bytes(57))]), der_seq(&[OID_ED448.to_vec()]), 114)),
+        _ => None,
+    };
+    let spki = unverifiable.as_ref().map(|u| u.0.clone()).unwrap_or_else(|| ck.spki());
     let now = now_secs();
     let sign_host = |k: &Keypair, msg: Vec<u8>| k.sign(&msg).unwrap_or_default();
     let good_ext_value = signed_key(&host_pub, &sign_host(&host, [PREFIX, &spki[..]].concat()));
@@ -611,8 +640,15 @@ fn variant_case(check: &Check, rng: &mut Rng, vi: usize, allow_rsa_host: bool) {
         "sigalg-mismatch-inner-outer-sha384" => outer_alg = der_seq(&[OID_ECDSA_SHA384.to_vec()]),
         _ => {}
     }
+    if let Some((_, alg, _)) = &unverifiable {
+        spec.sig_alg = alg.clone();
+        outer_alg = alg.clone();
+    }
     let mut tbs = build_tbs(&spki, &spec);
     let mut sig = signer.as_ref().unwrap_or(&ck).sign(&tbs);
+    if let Some((_, _, n)) = &unverifiable {
+        sig = rng.bytes(*n);
+    }
     if post_sign_tamper == 1 {
         // flip a bit of the serial number (inside the TBS) after signing
         let at = tbs.len().min(12);
